@@ -295,8 +295,8 @@ def seq_job(cfg):
                 stats["max_seconds_hit"] = True
                 nxt = []
                 break
-        if len(stats["samples"]) < 1 and nxt:
-            stats["samples"].append({"cfg": cfg, "trace": trace_of(nxt[len(nxt) // 2][0])})
+        if nxt:  # keep a sample from the deepest level explored
+            stats["samples"] = [{"cfg": cfg, "trace": trace_of(nxt[len(nxt) // 2][0])}]
         frontier = nxt
     stats["outcomes"] = sorted(stats["outcomes"], key=repr)
     # the canonical state space closed below the depth bound: longer sequences reach no new state
